@@ -46,10 +46,17 @@ def cases(tier, rng):
         rng.shuffle(body)
         seq += body + ["poll"] * 40
         out.append(fqgen.Case(f"chatty#{i}", "fq", fqgen.materialise(seq), ["chatty"]))
+    # socket level (engine world): a peer connects again under an identity that is still registered while a recv is
+    # parked on the old stream — the insert must queue the new stream and wake the receiver
+    from vlib import worldgen
+    out += worldgen.reconnect_parked_cases()
     return out
 
 
 def oracle(case, lines):
+    if case.engine == "world":
+        from vlib import worldgen
+        return worldgen.reconnect_parked_oracle(case, lines)
     if any(l.startswith(("PANIC", "ABORT", "TIMEOUT")) for l in lines):
         return "the fair queue panicked"
     for op, l in zip(case.ops, lines[1:]):
@@ -134,6 +141,8 @@ def oracle(case, lines):
 
 
 def nontrivial(case, lines):
+    if case.engine == "world":
+        return any(l.startswith("ready ok M[") for l in lines)
     seen_pending = False
     for l in lines:
         if l.startswith("pending"):
